@@ -26,6 +26,7 @@ import (
 	"net/http"
 	"os"
 	"os/exec"
+	"os/signal"
 	"path/filepath"
 	"runtime"
 	"runtime/debug"
@@ -33,6 +34,7 @@ import (
 	"strings"
 	"sync"
 	"sync/atomic"
+	"syscall"
 	"testing"
 	"time"
 
@@ -725,7 +727,17 @@ func c16Child(t *testing.T, name string) {
 	fmt.Printf("C16-DONE\n")
 }
 
+// c16LimitFileSize: a command that a change has turned into an endless writer must not fill the disk of whoever runs
+// the check (one such run left an 84 GB file behind before this was added): no file written by this process or its
+// children may grow beyond 1 GiB - the write fails with EFBIG instead (the signal that goes with it is ignored).
+func c16LimitFileSize() {
+	signal.Ignore(syscall.SIGXFSZ)
+	lim := syscall.Rlimit{Cur: 1 << 30, Max: 1 << 30}
+	_ = syscall.Setrlimit(syscall.RLIMIT_FSIZE, &lim)
+}
+
 func TestC16(t *testing.T) {
+	c16LimitFileSize()
 	if name := os.Getenv("C16_CHILD"); name != "" {
 		c16Child(t, name)
 		return
